@@ -42,10 +42,11 @@ Definition out_ok (st : start) (o : opts) (m : outcome) (i : impl_out) : bool :=
   | Stuck => false
   end.
 
-(* ((whole initialize?, (options, (failure, (parent side of fork?, starting credentials)))), implementation outcome) *)
-Definition chk_run (c : (bool * (opts * (option (nat * xcls) * (bool * start)))) * impl_out) : bool :=
-  let '((whole, (o, (f, (parent, st)))), i) := c in
-  let W := World f ((lit "os.fork", if parent then VInt 4242 else VInt 0) :: start_results st o) in
+(* ((whole initialize?, (options, ((failure, how many consecutive calls fail — None: all later ones),
+      (parent side of fork?, starting credentials)))), implementation outcome) *)
+Definition chk_run (c : (bool * (opts * ((option (nat * xcls) * option nat) * (bool * start)))) * impl_out) : bool :=
+  let '((whole, (o, ((f, span), (parent, st)))), i) := c in
+  let W := World f ((lit "os.fork", if parent then VInt 4242 else VInt 0) :: start_results st o) span in
   let m := if whole then run prog W (mkcfg o) (lit "initialize") [VStr (lit "pygopherd.conf")]
            else run prog W (mkcfg o) (lit "init_security") [VSym (lit "config")] in
   out_ok st o m i.
